@@ -1099,15 +1099,23 @@ add({"name": "hfe_opcodes", "file": "dfs/img_hfe.cc", "anchor": r"#define OPCODE
      "toplevel": True, "sig": "", "rules": []})
 add({"name": "is_hfe3_opcode", "file": "dfs/img_hfe.cc", "anchor": r"bool is_hfe3_opcode\(byte val\)",
      "sig": "static bool is_hfe3_opcode(byte val)", "rules": []})
+add({"name": "HfeCopyState", "file": "dfs/img_hfe.cc", "anchor": r"struct HfeCopyState\s*\{", "region_end": r"\n\s*\nvoid copy_hfe",
+     "toplevel": True, "sig": "", "optional": True, "fallback": "struct HfeCopyState { int got_bits; byte out; byte this_op; };",
+     "rules": [(r"\b(int|byte) (\w+) = 0;", r"\1 \2;   /* = 0: see the initialiser in hfe_side_blocks */", 3)]})
+# copy_hfe: one spec for both shapes of the function -- with the decoding state carried in a HfeCopyState object (references
+# to its members, fix of 2026-10-03) and with the state in local variables (pinned code).  In the second shape the emitted
+# function ignores its `state` parameter and the contract fails, which is the defect.
 add({"name": "copy_hfe", "file": "dfs/img_hfe.cc",
-     "anchor": r"void copy_hfe\(bool hfe3, const byte\* begin, const byte\* end,\s*std::back_insert_iterator<std::vector<byte>> dest\)",
-     "sig": "static void copy_hfe(bool hfe3, const byte *begin, const byte *end)",
+     "anchor": r"void copy_hfe\(bool hfe3, const byte\* begin, const byte\* end,\s*std::back_insert_iterator<std::vector<byte>> dest(?:,\s*HfeCopyState\s*\*\s*state)?\)",
+     "sig": "static void copy_hfe(bool hfe3, const byte *begin, const byte *end, struct HfeCopyState *state)",
+     "post": "#undef got_bits\n#undef out\n#undef this_op\n",
      "rules": [(r"std::cerr << [^;]*;", "g_diag++;  /* diagnostic text dropped */", ">=1"),
                (r"if \(DFS::verbose\)\s*\{[^{}]*\}", "/* verbose dropped */", ">=1"),
                (r"static_cast<byte>\(", "(byte)(", ">=1"),
                (r"std::ostringstream ss;.*?throw InvalidHfeFile\(ss\.str\(\)\);", "{ VERIF_THROW(Other, 0); return; }", 1),
                (r"\*dest\+\+ = out;", "dest_push_back(out);", 1),
-               (r"premature_stream_end\(this_op\);", "{ VERIF_THROW(Other, 0); return; }  /* premature_stream_end throws InvalidHfeFile */", 1),
+               (r"(?:int|byte)\s*&\s*(got_bits|out|this_op) = state->\1;", r"\n#define \1 (state->\1)   /* a C++ reference to the member */\n", ">=0"),
+               (r"premature_stream_end\(this_op\);", "{ g_diag++; }  /* premature_stream_end prints a warning */", "=0or1"),
                (r"(while \(begin != end\))", r"\1 COPY_HFE_LOOP_CONTRACT", 1),
                (r"(for \(int bitnum = 0; bitnum < 8; \+\+bitnum\))", r"COPY_HFE_INNER_GHOST \1 COPY_HFE_INNER_CONTRACT", 1)],
      "dropped": ["diagnostic texts"]})
@@ -1137,8 +1145,12 @@ add({"name": "hfe_side_blocks", "file": "dfs/img_hfe.cc",
                (r"\bauto begin_offset\b", "size_t begin_offset", 1),
                (r"const auto end_offset = std::min\(([^;]*?),\s*([^;]*?)\);", r"const size_t end_offset = size_min(\1, \2);", 1),
                (r"\bassert\(end_offset <= raw_data\.size\(\)\);", "VERIF_ASSERT(end_offset <= track_bytes_read);", "=0or1"),
-               (r"copy_hfe\(([^,]*),\s*raw_data\.data\(\) \+ (\w+),\s*raw_data\.data\(\) \+ (\w+),\s*std::back_inserter\(track_stream\)\);", r"copy_hfe_v(\1, \2, \3);", 1),
+               (r"copy_hfe\(([^,]*),\s*raw_data\.data\(\) \+ (\w+),\s*raw_data\.data\(\) \+ (\w+),\s*std::back_inserter\(track_stream\),\s*(&\w+)\);", r"copy_hfe_v(\1, \2, \3, \4);", "=0or1"),
+               (r"copy_hfe\(([^,]*),\s*raw_data\.data\(\) \+ (\w+),\s*raw_data\.data\(\) \+ (\w+),\s*std::back_inserter\(track_stream\)\);", r"copy_hfe_v(\1, \2, \3, (struct HfeCopyState *)0);  /* no state object is handed over */", "=0or1"),
+               (r"HfeCopyState (\w+);", "struct HfeCopyState \\1 = { 0, 0, 0 };   /* default member initialisers */\n#undef SIDE_STATE_TARGET\n#define SIDE_STATE_TARGET , \\1\n#undef SIDE_STATE_INV\n#define SIDE_STATE_INV SIDE_STATE_INV_FOR(\\1)\n", "=0or1"),
+               (r"premature_stream_end\(([^;]*)\);", r"premature_stream_end_model(\1);", "=0or1"),
                (r"(while \(begin_offset < track_bytes_read\))", r"\1 SIDE_BLOCKS_LOOP_CONTRACT", 1)],
+     "forbid": [r"\bcopy_hfe\("],
      "dropped": ["ULTRA_VERBOSE / verbose diagnostics"]})
 add({"name": "PicTrack_track_len", "file": "dfs/img_hfe.cc", "anchor": r"unsigned long track_len\(\) const",
      "sig": "static unsigned long PicTrack_track_len(const struct PicTrack *self)",
